@@ -5,11 +5,12 @@ import checklib
 
 
 def regen(ctx):
-    """lean/Hive/Gen/C02_Facts.lean (shared with C02, same generator harness/c02/facts): normalised bodies of the stream
-    writers, ByteBuffer.Write/Seek, Offset/Skip/GoTo - pinned by the C01_facts_* obligations."""
-    out = os.path.join(checklib.LEAN, "Hive", "Gen", "C02_Facts.lean")
-    tmp = os.path.join(ctx.scratch, "C02_Facts.lean")
-    rc, log = checklib.sh(["go", "run", "./c02/facts", tmp, "Hive.Gen.C02Facts", ctx.repo], cwd=checklib.HARNESS, timeout=600)
+    """lean/Hive/Gen/C01c_Facts.lean (same generator as C02's facts, harness/c02/facts, but a file of its own: runs of
+    different properties are not serialised against each other): normalised bodies of the stream writers,
+    ByteBuffer.Write/Seek, Offset/Skip/GoTo - pinned by the C01_facts_* obligations."""
+    out = os.path.join(checklib.LEAN, "Hive", "Gen", "C01c_Facts.lean")
+    tmp = os.path.join(ctx.scratch, "C01c_Facts.lean")
+    rc, log = checklib.sh(["go", "run", "./c02/facts", tmp, "Hive.Gen.C01cFacts", ctx.repo], cwd=checklib.HARNESS, timeout=600)
     if rc != 0 or not os.path.exists(tmp):
         return [{"kind": "facts-extractor", "detail": checklib.tail(log, 20)}]
     checklib.write_gen(ctx, out, open(tmp).read())
@@ -29,7 +30,7 @@ SPEC = {
                  "C01_facts_body_writeFixedSize", "C01_facts_body_WriteCollection", "C01_facts_body_WriteBytesWithSize", "C01_facts_body_ByteBuffer_Write", "C01_facts_body_ByteBuffer_Seek", "C01_facts_body_Offset", "C01_facts_body_Skip", "C01_facts_body_GoTo", "C01_facts_fitsLP"],
     "trusted_base": ["hand-written model Hive/Model/Stream.lean of serializer/stream/{read,write,byte_buffer}.go, tied by differential execution (harness/c01c, harness/c02/sx)",
                      "io.ReadFull / binary.Read / bytes.Buffer semantics as written down in the model (readFullAux, BB.write)",
-                     "harness/c02/facts (go/ast): regenerated normalised bodies of the writers, ByteBuffer.Write/Seek and the seek helpers (Hive/Gen/C02_Facts.lean), pinned by the C01_facts_* obligations against Hive/Spec/DeserFacts.lean",
+                     "harness/c02/facts (go/ast): regenerated normalised bodies of the writers, ByteBuffer.Write/Seek and the seek helpers (Hive/Gen/C01c_Facts.lean), pinned by the C01_facts_* obligations against Hive/Spec/DeserFacts.lean",
                      "Go toolchain, compiled Lean driver"],
     "modelled": ["stream.Read[T] for the integer/bool/[32|36|38]byte instances, ReadBytes, ReadBytesWithSize, ReadObject, ReadObjectWithSize, PeekSize, ReadCollection",
                  "stream.Write[T], WriteBytes, WriteBytesWithSize, WriteObject, WriteObjectWithSize, WriteCollection over stream.ByteBuffer (Write/Seek with all three whence values, negative targets refused; stream.GoTo/Skip/Offset)",
